@@ -1,67 +1,91 @@
-import CalicoVerif.Proofs.C17b
+import CalicoVerif.Proofs.C17g
 /-!
 C17 — Route sync converges for Felix's routes and leaves other routes alone.
-Property theorems over the model `CalicoVerif.Model.C17` (conflict resolution, ownership, full
-resync, delta application with netlink failures, inline retry).
+Property theorems over the model `CalicoVerif.Model.C17` (conflict resolution, ownership, full resync,
+per-interface rescans, delta application with netlink failures, inline retry of `Apply`).
 
-NOT proved in Lean (evaluated as oracles on the real code after every Apply, and backed by the
-correspondence): `routes_converge` and `stale_owned_removed` as end-to-end statements over failure
-histories.  Per-interface rescans, grace periods, ARP, conntrack tracking and multi-path are outside
-the model.
+Proved in full: `class_priority_wins`.
+Proved for the FULL-RESYNC path only (hence `_partial`): convergence, stale removal and non-interference for an
+`Apply` (including its inline retry) that starts with a full resync pending — the first Apply after start,
+any Apply after `QueueResync`, any Apply after a failed resync — after ANY history of operations
+(`W.run`: route API calls, interface events, foreign kernel changes, earlier Applies with any failures) from ANY
+start state whose kernel table has one route per destination.
+What is missing: (1) Applies that only do per-interface rescans (`ifacesToRescan`/`resyncIface`) — for those
+the three clauses are evaluated as oracles on the real code and backed by the model correspondence only;
+(2) the `Apply`-level theorems assume that the first attempt leaves no interface queued for a rescan
+(no RouteReplace failed on an interface that is down in the kernel) — the attempt-level theorem
+`attempt_converges_partial` does not need that.
+Grace periods, ARP, conntrack tracking and multi-path are outside the model.
 -/
 namespace CalicoVerif.C17
 
-/-- **class_priority_wins**: for every desired-route history and interface state, the route Felix
-wants for a destination is one of the live targets (interface present and up) and no live target
-has a lower route class, or the same class and a higher interface index. -/
-theorem class_priority_wins (t : RT) (cidr : String) (r : Want × Nat) (h : t.best cidr = some r) :
-    r ∈ t.cands cidr ∧ ∀ x ∈ t.cands cidr, better x r = false :=
-  best_spec t cidr r h
-
-/-- A destination with at least one live target always has a desired route. -/
-theorem live_target_gets_route (t : RT) (cidr : String) (x : Want × Nat) (hx : x ∈ t.cands cidr) :
-    (t.desired cidr).isSome = true := by
+/-- **class_priority_wins**: for every set of desired targets and interface states, the route Felix wants for a
+destination is one of the live targets (interface present and up) and no live target has a lower route class,
+or the same class and a higher interface index; and a destination with at least one live target always has a
+desired route. -/
+theorem class_priority_wins (t : RT) (cidr : String) :
+    (∀ r, t.best cidr = some r → r ∈ t.cands cidr ∧ ∀ x ∈ t.cands cidr, better x r = false) ∧
+    (∀ x, x ∈ t.cands cidr → (t.desired cidr).isSome = true) := by
+  refine ⟨fun r h => best_spec t cidr r h, ?_⟩
+  intro x hx
   unfold RT.desired
   have := best_isSome t cidr x hx
   cases h : t.best cidr with
   | none => rw [h] at this; simp at this
   | some v => simp
 
-/-- **unowned_routes_unchanged (no resync pending)**: one `attemptApply`, with any injected
-RouteReplace/RouteDel failures: a destination that Felix does not want and that is not in Felix's
-view of its own routes keeps exactly the kernel route it had. -/
-theorem unowned_routes_unchanged_attempt (w : W) (c : String) (hf : w.t.fullResync = false)
-    (hdp : c ∉ w.t.dp.keys) (hd : w.t.desired c = none) :
-    w.attempt.1.K.get c = w.K.get c := by
-  unfold W.attempt
-  simp only [hf, Bool.false_eq_true, if_false]
-  have h1 := deletePass_other w c hdp
-  have hd1 : w.deletePass.1.t.desired c = none := by rw [desired_congr h1.2 c]; exact hd
-  have h2 := updatePass_other w.deletePass.1 c hd1
-  exact h2.1.trans h1.1
+/-- **One attempt with a full resync** (`attemptApply` when `fullResync` is set; partial: not the per-interface
+rescan path).  From any state with one kernel route per destination: if the attempt reports no error and
+queues no interface, then every desired route is in the kernel exactly, every kernel route that is Felix's
+(`routeIsOurs`) is the desired route of its destination (so stale owned routes are gone), Felix's view of
+its own routes is exact, and the resync is no longer pending. -/
+theorem attempt_converges_partial (w : W) (hf : w.t.fullResync = true) (hn : w.K.keys.Nodup)
+    (hok : w.attempt.2 = false) (hrs : w.attempt.1.t.rescan = []) :
+    (∀ c r, w.attempt.1.t.desired c = some r → w.attempt.1.K.get c = some r) ∧
+    (∀ c r, w.attempt.1.K.get c = some r → w.attempt.1.t.owns r = true → w.attempt.1.t.desired c = some r) ∧
+    ViewExact w.attempt.1 ∧ w.attempt.1.t.fullResync = false := by
+  obtain ⟨h1, h2, h3, _⟩ := attempt_converges w hf hn hok hrs
+  exact ⟨h1.1, h1.2, h2, h3⟩
 
-/-- **unowned_routes_unchanged (after a full resync)**: `doFullResync` puts into Felix's view only
-routes that pass `routeIsOurs`, so a destination all of whose kernel routes are not Felix's never
-enters the view. -/
-theorem resync_view_only_owned (w : W) (c : String) (hl : w.f.linkList = false) (hr : w.f.routeList = false)
-    (hun : ∀ r, (c, r) ∈ w.K → ({ w.t with ifaces := w.kif } : RT).owns r = false) :
-    c ∉ w.fullResync.1.t.dp.keys := by
-  unfold W.fullResync
-  simp only [hl, hr, Bool.false_eq_true, if_false]
-  intro hmem
-  simp only [Map.keys, List.mem_map] at hmem
-  obtain ⟨p, hp, rfl⟩ := hmem
-  have hp' := List.mem_filter.1 hp
-  have := hun p.2 hp'.1
-  rw [this] at hp'
-  exact absurd hp'.2 (by simp)
+/-- **routes_converge** (partial: full-resync Applies; first attempt queues no interface).
+After any history `ops` from any start state `w0` (one kernel route per destination), if a full resync is
+pending and `Apply` — run with any injected failures `f`, including its inline retry — returns no error, then
+the kernel holds exactly the desired route for every destination Felix wants. -/
+theorem routes_converge_partial (w0 : W) (hn0 : w0.K.keys.Nodup) (ops : List Op) (f : Fails)
+    (hf : (w0.run ops).t.fullResync = true)
+    (hq : ({ w0.run ops with f := f } : W).attempt.1.t.rescan = [])
+    (hok : ((w0.run ops).stepOp (Op.apply f)).2 = some false) :
+    ∀ c r, ((w0.run ops).stepOp (Op.apply f)).1.t.desired c = some r →
+      ((w0.run ops).stepOp (Op.apply f)).1.K.get c = some r := by
+  have hok' : ({ w0.run ops with f := f } : W).apply.2 = false := by
+    simpa [W.stepOp] using hok
+  exact (apply_converges_full { w0.run ops with f := f } hf (run_nodup ops w0 hn0) hq hok').1
 
-/-- `doFullResync` does not touch the kernel. -/
-theorem resync_kernel_same (w : W) : w.fullResync.1.K = w.K := by
-  unfold W.fullResync
-  split
-  · rfl
-  · split <;> rfl
+/-- **stale_owned_removed** (partial: as `routes_converge_partial`).  Under the same conditions every kernel
+route that is Felix's is the desired route of its destination: owned routes Felix no longer wants are gone. -/
+theorem stale_owned_removed_partial (w0 : W) (hn0 : w0.K.keys.Nodup) (ops : List Op) (f : Fails)
+    (hf : (w0.run ops).t.fullResync = true)
+    (hq : ({ w0.run ops with f := f } : W).attempt.1.t.rescan = [])
+    (hok : ((w0.run ops).stepOp (Op.apply f)).2 = some false) :
+    ∀ c r, ((w0.run ops).stepOp (Op.apply f)).1.K.get c = some r →
+      ((w0.run ops).stepOp (Op.apply f)).1.t.owns r = true →
+      ((w0.run ops).stepOp (Op.apply f)).1.t.desired c = some r := by
+  have hok' : ({ w0.run ops with f := f } : W).apply.2 = false := by
+    simpa [W.stepOp] using hok
+  exact (apply_converges_full { w0.run ops with f := f } hf (run_nodup ops w0 hn0) hq hok').2
+
+/-- **unowned_routes_unchanged** (partial: as above, but WITHOUT assuming that Apply succeeds).  After any
+history, an `Apply` with a full resync pending and any injected failures leaves in place every kernel route
+that is not Felix's (judged with the interface states Apply ends with) at a destination Felix has no route
+for. -/
+theorem unowned_routes_unchanged_partial (w0 : W) (hn0 : w0.K.keys.Nodup) (ops : List Op) (f : Fails)
+    (hf : (w0.run ops).t.fullResync = true)
+    (hq : ({ w0.run ops with f := f } : W).attempt.1.t.rescan = [])
+    (c : String) (r : KRoute) (hk : (w0.run ops).K.get c = some r)
+    (ho : ((w0.run ops).stepOp (Op.apply f)).1.t.owns r = false)
+    (hd : ((w0.run ops).stepOp (Op.apply f)).1.t.desired c = none) :
+    ((w0.run ops).stepOp (Op.apply f)).1.K.get c = some r :=
+  apply_full_unowned { w0.run ops with f := f } hf (run_nodup ops w0 hn0) hq c r hk ho hd
 
 /-! ### Non-vacuity -/
 
@@ -76,5 +100,35 @@ def exT : RT :=
 example : (exT.best "10.65.0.1/32").map (fun p => (p.1.iface, p.2)) = some ("cali1", 10) := by decide
 example : (exT.cands "10.65.0.1/32").length = 3 := by decide
 example : exT.desired "10.99.0.0/16" = none := by decide
+
+/-- A start state with a stale owned route (wrong interface), a stale owned route nobody wants, and a foreign
+route on a non-Calico interface. -/
+def exW0 : W :=
+  { t := { pol := exT.pol, defProto := 80 }
+    kif := [("lo", ⟨1, true⟩), ("cali1", ⟨10, true⟩), ("cali2", ⟨11, true⟩), ("eth0", ⟨2, true⟩)]
+    K := [("10.65.0.1/32", ⟨11, "", 80, "link"⟩), ("10.65.0.9/32", ⟨10, "", 80, "link"⟩),
+          ("192.168.0.0/24", ⟨2, "192.168.0.1", 3, "gw"⟩)] }
+
+/-- A history: route updates, an Apply in which the route listing fails, an interface flap, a foreign route. -/
+def exOps : List Op :=
+  [Op.upd ⟨0, "cali1", "10.65.0.1/32", "", "link"⟩, Op.upd ⟨1, "cali2", "10.65.0.1/32", "", "link"⟩,
+   Op.apply { routeList := true }, Op.iface "cali2" 11 (some false), Op.iface "cali2" 11 (some true),
+   Op.kroute "10.1.0.0/16" ⟨2, "192.168.0.1", 3, "gw"⟩, Op.kroute "10.65.7.7/32" ⟨10, "", 80, "link"⟩, Op.resync]
+
+/- The hypotheses of the `_partial` theorems hold for this history (with a RouteDel failure injected into the
+final Apply, so that the inline retry runs), and the conclusion is what one expects. -/
+#guard exW0.K.keys.Nodup
+#guard (exW0.run exOps).t.fullResync
+#guard ({ exW0.run exOps with f := { del := true } } : W).attempt.2                       -- first attempt fails
+#guard ({ exW0.run exOps with f := { del := true } } : W).attempt.1.t.rescan.isEmpty
+#guard ((exW0.run exOps).stepOp (Op.apply { del := true })).2 == some false              -- Apply succeeds
+#guard ((exW0.run exOps).stepOp (Op.apply { del := true })).1.K.get "10.65.0.1/32" == some ⟨10, "", 80, "link"⟩
+#guard ((exW0.run exOps).stepOp (Op.apply { del := true })).1.K.get "10.65.0.9/32" == none
+#guard (exW0.run exOps).K.get "10.65.7.7/32" == some ⟨10, "", 80, "link"⟩
+#guard ((exW0.run exOps).stepOp (Op.apply { del := true })).1.K.get "10.65.7.7/32" == none
+#guard ((exW0.run exOps).stepOp (Op.apply { del := true })).1.K.get "192.168.0.0/24" == some ⟨2, "192.168.0.1", 3, "gw"⟩
+#guard ((exW0.run exOps).stepOp (Op.apply { del := true })).1.K.get "10.1.0.0/16" == some ⟨2, "192.168.0.1", 3, "gw"⟩
+#guard ((exW0.run exOps).stepOp (Op.apply { del := true })).1.t.owns ⟨2, "192.168.0.1", 3, "gw"⟩ == false
+#guard ((exW0.run exOps).stepOp (Op.apply { del := true })).1.t.owns ⟨10, "", 80, "link"⟩
 
 end CalicoVerif.C17
